@@ -33,7 +33,22 @@ SC_ASSUME = [
     "futex and semaphore wake-ups pick waiters in FIFO order",
 ]
 
+SEQ_ASSUME = [
+    "the reference model in the driver (seqx/*.c) states the property correctly",
+    "bounded scope: only the enumerated lattice / term space is covered, completely",
+    "Linux build as produced by bin/buildlib (clang-14, ASan)",
+]
+
 PLAN = {
+    "C12": {
+        "rule": "one evaluation = one (base, delta) or (timespec, delta) input of the boundary lattice, full cross product, compared with 128-bit reference arithmetic; "
+                "distinct = distinct (clock, outcome-class) results",
+        "bounds": {"quick": "1623 bases x 1094 deltas + 91 timespecs x 1094 deltas + 4 virtual clock readings + 226 waits on elapsed times",
+                   "thorough": "12917 bases x 8790 deltas + 2276 timespecs x 8790 deltas (1.3e8 calls) + virtual clocks + waits"},
+        "assumptions": SEQ_ASSUME,
+        "parallel": {"quick": 1, "thorough": 1},
+        "budget_s": {"quick": 120, "thorough": 900},
+    },
     "C09": {
         "rule": "one evaluation = one complete execution of the real dispatch_once code under one schedule; schedules are "
                 "enumerated exhaustively up to k preemptions; distinct = distinct API-level event logs",
@@ -46,8 +61,16 @@ PLAN = {
 }
 
 
+def sx(name, **kw):
+    t = {"engine": "seqx", "name": name, "cmd": [V + "/build/seqx/" + name, "--tier", "{tier}", "--json", "{json}"]}
+    t.update(kw)
+    return [t]
+
+
 def tasks_for(pid, tier):
     q = tier == "quick"
+    if pid == "C12":
+        return sx("time_c12")
     if pid == "C09":
         return (ds("once", 3 if q else 4, [0, 1]) + ds("once", 3, [2, 3]) +
                 ds("once", 2 if q else 3, [4, 5], jobs=4 if q else 8))
